@@ -18,8 +18,9 @@
    A type reference keeps what matters for inheritance: the name as written ("pfx:name" possible),
    fraction-digits, patterns, enum and bit member names, path, the identityref base, union member types, and
    the range / length argument as OPAQUE TEXT: the resolved type carries "the text of the nearest range
-   (length) restriction on the chain" (what the text denotes and that it only narrows is C10's subject;
-   Equal compares the texts, which is exact when equal sets are written equally).  Enum values / bit
+   (length) restriction on the chain" (Equal compares the texts, which is exact when equal sets are written
+   equally); what the range texts of a chain denote for the integer kinds is computed by range_of at the end of
+   this file, which composes C10's parseChildRanges along the chain.  Enum values / bit
    positions are the positions in the member list (C14 covers explicit values); an identityref base is an
    opaque name assumed to resolve (C11).  require-instance and posix-pattern extensions are not modelled.
 
@@ -33,7 +34,8 @@
    and a memoised failure stays a failure, so the model evaluates afresh.  The `resolving` flag set on a typedef
    while it is being resolved is the list [marks] of typedef positions. *)
 From Coq Require Import Ascii String List Bool Arith NArith.
-From GY Require Import Base.Outcome.
+From Coq Require Import ZArith.
+From GY Require Import Base.Outcome Model.Number Model.Range.
 Import ListNotations.
 Local Open Scope string_scope.
 Local Open Scope list_scope.
@@ -588,3 +590,97 @@ Fixpoint str_of_codes (l : list N) : string :=
   match l with [] => EmptyString | c :: r => String (ascii_of_N c) (str_of_codes r) end.
 Fixpoint codes_of_str (s : string) : list N :=
   match s with EmptyString => [] | String c r => N_of_ascii c :: codes_of_str r end.
+
+(* ------------------------------------------------------------------ resolved ranges of integer types (tie to C10)
+   In the resolver above the range argument is an opaque text and the resolved type carries the nearest one.
+   What Type.resolve really computes for the integer kinds is the composition of Model/Range.v's parseChildRanges
+   (C10) along the chain: starting from the built-in range of the base kind, every type statement of the chain that
+   has a range statement -- from the base outward -- replaces the range by
+   parseChildRanges(parent range, text, isDecimal64 = false, fraction digits = 0), keeping the parent's value when
+   the result is Equal to it; a text that does not parse or is not within the parent's range is an error.
+   (decimal64 ranges and length restrictions stay opaque.) *)
+
+(* the chain the lookups follow from a reference, down to the built-in kind (None: there is none within n steps) *)
+Fixpoint chain_of (S : schema) (n : nat) (st : site) (t : tref) : option (list (tdkey * typedef) * kind) :=
+  match n with
+  | O => None
+  | Datatypes.S n' =>
+      match lookup_type S st (t_name t) with
+      | LBuiltin k => Some ([], k)
+      | LFound key td =>
+          match chain_of S n' (site_of key) (td_type td) with
+          | Some (tds, k) => Some ((key, td) :: tds, k)
+          | None => None
+          end
+      | LNone => None
+      end
+  end.
+
+(* Int8Range ... Uint64Range *)
+Definition int_bounds (k : kind) : option (Z * Z) :=
+  match k with
+  | Yint8 => Some (-128, 127)%Z | Yint16 => Some (-32768, 32767)%Z
+  | Yint32 => Some (-2147483648, 2147483647)%Z
+  | Yint64 => Some (-9223372036854775808, 9223372036854775807)%Z
+  | Yuint8 => Some (0, 255)%Z | Yuint16 => Some (0, 65535)%Z | Yuint32 => Some (0, 4294967295)%Z
+  | Yuint64 => Some (0, 18446744073709551615)%Z
+  | _ => None
+  end.
+
+Definition base_range (k : kind) : YangRange :=
+  match int_bounds k with
+  | Some (a, b) => [(FromInt a, FromInt b)]
+  | None => []
+  end.
+
+(* "if t.Range != nil { yr, err := y.Range.parseChildRanges(...); case err != nil: error; case yr.Equal(y.Range): ;
+    default: y.Range = yr }" for the range texts of a chain, base first *)
+Fixpoint apply_ranges (y : YangRange) (texts : list string) : outcome YangRange :=
+  match texts with
+  | [] => Ok y
+  | s :: r =>
+      yr <- parseChildRanges y (codes_of_str s) false 0%Z ;;
+      apply_ranges (if YangRange_Equal yr y then y else yr) r
+  end.
+
+(* the range statements of a chain, base first *)
+Definition chain_range_texts (t : tref) (tds : list typedef) : list string :=
+  filter_some (rev (map t_range (t :: map td_type tds))).
+
+(* the resolved Range of a reference: Ok None when the base kind is not an integer kind or there is no chain *)
+Definition range_of (S : schema) (st : site) (t : tref) : outcome (option YangRange) :=
+  match chain_of S (resolve_fuel S) st t with
+  | Some (tds, k) =>
+      match int_bounds k with
+      | Some _ => r <- apply_ranges (base_range k) (chain_range_texts t (map snd tds)) ;; Ok (Some r)
+      | None => Ok None
+      end
+  | None => Ok None
+  end.
+
+(* every type statement Process resolves: leaf types, the types of the typedefs in the dictionary, their union
+   members, each with the scope it sits in *)
+Fixpoint tref_closure (t : tref) {struct t} : list tref :=
+  match t with
+  | TRef _ _ _ _ _ _ _ _ _ members =>
+      t :: (fix go (l : list tref) : list tref :=
+              match l with [] => [] | u :: r => tref_closure u ++ go r end) members
+  end.
+
+Definition all_trefs (S : schema) : list (site * tref) :=
+  flat_map (fun ss =>
+    flat_map (fun td => match find_td (sc_typedefs (snd ss)) (td_name td) with
+                        | Some d => map (fun u => (fst ss, u)) (tref_closure (td_type d))
+                        | None => []
+                        end) (sc_typedefs (snd ss))
+    ++ flat_map (fun lf => map (fun u => (fst ss, u)) (tref_closure (lf_type lf))) (sc_leaves (snd ss)))
+    (schema_scopes S).
+
+(* some range statement of an integer type is rejected *)
+Definition any_range_error (S : schema) : bool :=
+  existsb (fun p => negb (is_ok (range_of S (fst p) (snd p)))) (all_trefs S).
+
+Definition leaf_ranges (S : schema) : list (string * outcome (option YangRange)) :=
+  flat_map (fun ss => map (fun lf => (lf_name lf, range_of S (fst ss) (lf_type lf))) (sc_leaves (snd ss)))
+    (schema_scopes S).
+
